@@ -157,7 +157,7 @@ def simple_shape(e):
     if e[0] == 'const':
         return 'const:%d' % e[1]
     if e[0] == 'arg':
-        return 'arg:' + e[2]
+        return 'arg:%d' % e[1]      # position, not name: a renamed parameter is the same parameter
     if e[0] == 'field':
         return 'field:' + e[2]
     if e[0] == 'call':
